@@ -303,12 +303,48 @@ def rule_r5(F, rep):
     rep.floor(R, sum(len(v) for v in G.edges.values()), 1000, "state-push / helper-call edges")
 
 
+TAIL_OK = {
+    "Expr.kind/ExprKind.Local.1": "the body of `local` is the value of the whole expression",
+    "Expr.kind/ExprKind.If.1": "the selected branch is the value of the `if`",
+    "Expr.kind/ExprKind.If.2": "the selected branch is the value of the `if`",
+    "Expr.kind/ExprKind.Assert.1": "the expression after `assert ...;` is the value of the whole expression",
+    "arg2": "the root expression handed to analyze_expr with its caller's flag",
+    "arg3": "a function body (analyze_function)",
+}
+
+
+def rule_r6(F, rep):
+    from . import envflow
+    R = rep.rule("C10.R6", "a call is marked as a tail call only in a tail position: the analyzer hands the `can be tailstrict` "
+                 "flag on only to the body of `local`, the branches of `if`, the expression after `assert` and a function body; "
+                 "every other child expression is analysed with the flag off. A `tailstrict` call elsewhere (an operand, an "
+                 "argument, ...) would take the frame-free tail-call path although work remains after it, so the recursion is "
+                 "never counted against the limit")
+    rows = envflow.tail_rows(F)
+    for r in rows:
+        path = "/".join(r["child"])
+        allowed = path in TAIL_OK
+        ok = r["flag"] == "no" or allowed
+        rep.ob(R, "tail-flag|%s|%s" % (r["fn"].rsplit("::", 1)[1], path), ok,
+               {"position": path, "flag": r["flag"], "tail_position": allowed} if allowed or not ok else None)
+        if not ok:
+            rep.violation(R, "%s|tail-flag|%s" % (r["fn"], path),
+                          "the child expression at %s is analysed with the tail-call flag %s; it is not a tail position "
+                          "(work remains after it), so `tailstrict` calls there must be ordinary counted calls"
+                          % (path, "passed on" if r["flag"] == "inherit" else "set"), r["site"])
+    seen = {"/".join(r["child"]) for r in rows if r["flag"] != "no"}
+    rep.floor(R, len(rows), 30, "child-expression hand-offs in the analyzer")
+    rep.floor(R, len(seen), 4, "tail positions that receive the flag")
+    rep.trust("Jsonnet tail positions (local body, if branches, assert continuation, function body), rules/c10.py:TAIL_OK")
+
+
 def run(F, rep, tier):
     rule_r1(F, rep)
     rule_r2(F, rep)
     rule_r3(F, rep)
     rule_r4(F, rep)
     rule_r5(F, rep)
+    rule_r6(F, rep)
     rep.assume("tail calls marked `tailstrict` are deliberately not counted (tail-call elimination is the language's "
                "semantics); frames for nesting that goes through expression evaluation are decided only as far as R2/R5 "
                "reach; the exact off-by-one of the limit is not decided")
